@@ -16,9 +16,12 @@
   * `C19_statement`     — the full statement (false today: `C19_statement_fails_today`);
     `C19_partial`       — the statement for declarations that avoid exactly the listed finding rows;
     `unsafe_rows_have_counterexamples` — for EVERY unsafe in-scope row of the table a kernel-checked history
-                          (operation, one poke, observation differs).
+                          (operation, one poke, observation differs); `oneOf_retains_argument` is one of them
+                          written out.  `fixed_rows_*`, `fast_serialization_fresh_today`: the rows repaired by
+                          typedpy commits 5e8a8ad / d7f6fe4 now carry positive theorems.
 -/
 import TypedpyModel.Lemmas.Alias
+import TypedpyModel.Spec.AliasScope
 import TypedpyModel.Generated.Aliasing
 import TypedpyModel.Pinned.Aliasing
 namespace Typedpy.C19
@@ -171,35 +174,6 @@ theorem setattr_value_fresh (M : Kind → Cat → Mode) (fuel : Nat) (s : Shape)
 
 /-! ## part 3 — the table -/
 
-/-- the retained-input clause of the statement speaks about typed fields given plain data: untyped content
-    (`Anything`, elements of untyped collections, undeclared keys, whatever a `NotField` lets through) and
-    Structure instances passed by reference (ClassReference) are shared by design -/
-def inScopeSite (op : OpK) (k : Kind) : Bool :=
-  !((op == .construct || op == .setattr || op == .deserialize) &&
-    (k == .any || k == .notF || (k == .struct && op != .deserialize)))
-
-def _root_.Typedpy.Alias.AliasRow.inScope (r : AliasRow) : Bool := inScopeSite r.op r.kind
-
-/-- a row is safe: no in-place edit of the argument, the two readings of the code agree, nothing handed on -/
-def _root_.Typedpy.Alias.AliasRow.safe (r : AliasRow) : Bool := !r.argMutated && r.agree && r.mode.copies
-
-/-- the known-finding rows (same sites as the keys in known_findings.json) -/
-def knownRows : List (OpK × Kind × Cat) := [
-  -- fast serialization / `<field>.serialize` return the stored collection itself
-  (.fieldSerialize, .array, .number), (.fieldSerialize, .array, .string), (.fieldSerialize, .array, .untyped),
-  (.fieldSerialize, .deque, .untyped), (.fieldSerialize, .map, .untyped),
-  (.fastSerialize, .array, .number), (.fastSerialize, .array, .string), (.fastSerialize, .array, .untyped),
-  (.fastSerialize, .deque, .untyped), (.fastSerialize, .map, .untyped),
-  -- OneOf / AllOf store the caller's object, not the option's normalised copy
-  (.construct, .oneOf, .coll), (.construct, .oneOf, .inline), (.construct, .oneOf, .wrap),
-  (.construct, .allOf, .coll), (.construct, .allOf, .inline), (.construct, .allOf, .wrap),
-  (.setattr, .oneOf, .coll), (.setattr, .oneOf, .inline), (.setattr, .oneOf, .wrap),
-  (.setattr, .allOf, .coll), (.setattr, .allOf, .inline), (.setattr, .allOf, .wrap),
-  -- a Set field without `items` keeps the caller's set
-  (.construct, .set, .untyped), (.setattr, .set, .untyped)]
-
-def isKnown (r : AliasRow) : Bool := knownRows.contains (r.op, r.kind, r.cat)
-
 def TablesOk (tbl : List AliasRow) : Prop := ∀ r, r ∈ tbl → (r.safe || !r.inScope || isKnown r) = true
 
 /-- obligation re-checked against the regenerated table on every run: a new aliasing / mutating site, or a
@@ -222,6 +196,12 @@ theorem no_arg_mutation_today : Generated.aliasing.all (fun r => !r.argMutated &
 theorem pinned_same_findings :
     (Generated.aliasing.filter fun r => !r.safe).map (fun r => (r.op, r.kind, r.cat)) =
     (Pinned.aliasing.filter fun r => !r.safe).map (fun r => (r.op, r.kind, r.cat)) := by
+  decide +kernel
+
+/-- the repaired rows are safe rows of today's table (and the source reading agrees with the probe there) -/
+theorem fixed_rows_safe_today :
+    fixedRows.all (fun k => Generated.aliasing.any fun r =>
+      r.op == k.1 && r.kind == k.2.1 && r.cat == k.2.2 && r.safe) = true := by
   decide +kernel
 
 /-! ## part 4 — from the table to the declaration -/
@@ -274,13 +254,6 @@ theorem safeFields_of_sites (tbl : List AliasRow) (op : OpK) :
     have h' := all_append h
     simp only [safeFields, safeShape_of_sites tbl op s h'.1, safeFields_of_sites tbl op rest h'.2, Bool.and_self]
 end
-
-/-- a site the statement speaks about and that is not a listed finding (a site the table does not know is
-    never admitted) -/
-def admitted (tbl : List AliasRow) (op : OpK) (kc : Kind × Cat) : Bool :=
-  match lookupRow tbl op kc.1 kc.2 with
-  | some r => r.inScope && !isKnown r
-  | none => false
 
 theorem lookupRow_mem {tbl : List AliasRow} {op : OpK} {k : Kind} {c : Cat} {r : AliasRow}
     (h : lookupRow tbl op k c = some r) : r ∈ tbl := by
@@ -447,52 +420,87 @@ theorem reachList_sound (h : Heap) : ∀ (n : Nat) (i : Item) (b : Nat), b ∈ r
           | refl => exact base
           | step _ hk' ih' => exact Reach.step ih' hk'
 
-/-- the flagship finding as an explicit history: fast serialization of `Array[Integer]` returns the live
-    list; clearing the returned list empties the instance's field -/
-theorem fast_serialization_returns_live_list :
-    let s := Shape.keyed .root [("f", .coll .array (.scalar .number))]
-    let out := transfer (modeOf Generated.aliasing .fastSerialize) 5 s witnessHeap (.ref 0)
-    ∃ res, out.2 = some res ∧
-      Held out.1 (roots res) 1 ∧
-      observeN 3 (runScript out.1 (roots res) [.write 1 ⟨"list", []⟩]).1 (.ref 0) ≠ observeN 3 out.1 (.ref 0) := by
-  refine ⟨.ref 2, by decide, reachList_sound _ 3 (.ref 2) 1 (by decide), ?_⟩
+/-- an open finding as an explicit history: constructing with `OneOf[Array[Integer], …]` keeps the caller's
+    list (cell 1, which the caller reaches from the kwargs it passed, cell 0); clearing that list afterwards
+    empties the new instance's field -/
+theorem oneOf_retains_argument :
+    let s := Shape.keyed .root [("f", .wrap .oneOf (.coll .array (.scalar .number)))]
+    let out := transfer (modeOf Generated.aliasing .construct) 5 s witnessHeap (.ref 0)
+    ∃ inst, out.2 = some inst ∧
+      Held out.1 [0] 1 ∧
+      observeN 3 (runScript out.1 [0] [.write 1 ⟨"list", []⟩]).1 inst ≠ observeN 3 out.1 inst := by
+  refine ⟨.ref 2, by decide +kernel, reachList_sound _ 3 (.ref 0) 1 (by decide +kernel), ?_⟩
   intro h
-  have : (observeN 3 (runScript (transfer (modeOf Generated.aliasing .fastSerialize) 5
-      (Shape.keyed .root [("f", .coll .array (.scalar .number))]) witnessHeap (.ref 0)).1 (roots (.ref 2))
-      [.write 1 ⟨"list", []⟩]).1 (.ref 0)).beq
-      (observeN 3 (transfer (modeOf Generated.aliasing .fastSerialize) 5
-      (Shape.keyed .root [("f", .coll .array (.scalar .number))]) witnessHeap (.ref 0)).1 (.ref 0)) = false := by decide
+  have : (observeN 3 (runScript (transfer (modeOf Generated.aliasing .construct) 5
+      (Shape.keyed .root [("f", .wrap .oneOf (.coll .array (.scalar .number)))]) witnessHeap (.ref 0)).1 [0]
+      [.write 1 ⟨"list", []⟩]).1 (.ref 2)).beq
+      (observeN 3 (transfer (modeOf Generated.aliasing .construct) 5
+      (Shape.keyed .root [("f", .wrap .oneOf (.coll .array (.scalar .number)))]) witnessHeap (.ref 0)).1 (.ref 2)) = false := by
+    decide +kernel
   rw [h] at this
   revert this
-  decide
+  decide +kernel
 
-/-- the full statement is false of today's code -/
+theorem witnessHeap_closed : ClosedBelow witnessHeap.next witnessHeap := by
+  intro a ha k hk
+  have : a = 0 ∨ a = 1 := by
+    have : a < 2 := ha
+    omega
+  cases this with
+  | inl e =>
+    subst e
+    simp [witnessHeap, Heap.ofList, Cell.kids, Item.addr?] at hk
+    subst hk; decide
+  | inr e =>
+    subst e
+    simp [witnessHeap, Heap.ofList, Cell.kids, Item.addr?] at hk
+
+/-- the full statement is still false of today's code (OneOf / AllOf) -/
 theorem C19_statement_fails_today : ¬ C19_statement Generated.aliasing := by
   intro st
-  have hf := st .fastSerialize (Shape.keyed .root [("f", .coll .array (.scalar .number))]) (by decide)
-    5 witnessHeap (.ref 0) _ _ rfl
-  obtain ⟨res, hres, held, ne⟩ := fast_serialization_returns_live_list
-  have h2 := (hf.2 res hres).1 [.write 1 ⟨"list", []⟩]
-    (by
-      simp only [AdmissibleAll, Admissible, and_true]
-      exact ⟨held, fun k hk => by simp [Cell.kids] at hk⟩)
+  have hf := st .construct (Shape.keyed .root [("f", .wrap .oneOf (.coll .array (.scalar .number)))])
+    (by decide +kernel) 5 witnessHeap (.ref 0) _ _ rfl
+  obtain ⟨inst, hres, held, ne⟩ := oneOf_retains_argument
   apply ne
-  have agree : ∀ a, a < witnessHeap.next → _ = _ := fun a ha => (h2 a ha).trans (hf.1 a ha).symm
-  apply observe_agree (fun a => a < witnessHeap.next) agree
-  · intro a ha k hk
-    have fr := hf.1 a ha
-    rw [fr] at hk
-    revert hk
-    have : a = 0 ∨ a = 1 := by
-      have : a < 2 := ha
-      omega
-    cases this with
-    | inl e => subst e; simp [witnessHeap, Heap.ofList, Cell.kids, Item.addr?]; intro e; subst e; decide
-    | inr e => subst e; simp [witnessHeap, Heap.ofList, Cell.kids, Item.addr?]
-  · intro a ea
-    simp only [Item.ref.injEq] at ea
-    subst ea
-    decide
+  refine (hf.2 inst hres).2 witnessHeap_closed [0] ?_ [.write 1 ⟨"list", []⟩] ?_ 3
+  · intro x hx
+    simp only [List.mem_singleton] at hx
+    subst hx; decide
+  · simp only [AdmissibleAll, Admissible, and_true]
+    exact ⟨held, fun k hk => by simp [Cell.kids] at hk⟩
+
+/-- what was the flagship finding now holds: fast serialization (and `<field>.serialize`) of scalar-item
+    and untyped collections — Array[Integer], Array[String], untyped Array / Deque / Map, also nested — is
+    covered by the statement for all heaps, values and caller scripts -/
+def fastShape : Shape :=
+  .keyed .root [("a", .coll .array (.scalar .number)), ("s", .coll .array (.scalar .string)),
+                ("u", .coll .array .untyped), ("q", .coll .deque .untyped), ("m", .coll .map .untyped),
+                ("b", .coll .array (.coll .array (.scalar .number)))]
+
+theorem fast_serialization_fresh_today : HoldsFor Generated.aliasing .fastSerialize fastShape :=
+  C19_today _ _ (by decide +kernel)
+
+theorem field_serialize_fresh_today :
+    HoldsFor Generated.aliasing .fieldSerialize (.coll .array (.scalar .number)) ∧
+    HoldsFor Generated.aliasing .fieldSerialize (.coll .array .untyped) ∧
+    HoldsFor Generated.aliasing .fieldSerialize (.coll .deque .untyped) ∧
+    HoldsFor Generated.aliasing .fieldSerialize (.coll .map .untyped) :=
+  ⟨C19_today _ _ (by decide +kernel), C19_today _ _ (by decide +kernel), C19_today _ _ (by decide +kernel),
+   C19_today _ _ (by decide +kernel)⟩
+
+/-- the former counterexample inputs, kernel-evaluated on today's table: on the witness of every repaired row
+    the operation succeeds and what it returns / keeps does not contain the collection it was given (cell 1) -/
+def freshOnWitness (tbl : List AliasRow) (k : OpK × Kind × Cat) : Bool :=
+  let s := if topless k.1 then witnessShape k.2.1 k.2.2 else .keyed .root [("f", witnessShape k.2.1 k.2.2)]
+  let src : Item := if topless k.1 then .ref 1 else .ref 0
+  match transfer (modeOf tbl k.1) 5 s witnessHeap src with
+  | (h', some res) =>
+    let poked := (runScript h' [] [.write 1 ⟨"list", []⟩]).1
+    !(reachList 4 h' res).contains 1 && (observeN 4 poked res).beq (observeN 4 h' res)
+  | _ => false
+
+theorem fixed_rows_fresh_on_witness : fixedRows.all (freshOnWitness Generated.aliasing) = true := by
+  decide +kernel
 
 /-! ## part 7 — non-vacuity -/
 
